@@ -137,7 +137,8 @@ def run_case(lang, case, sched=None):
                 "cause": type(cause).__name__ if cause is not None else None,
                 "msg": str(e)[:300] if not isinstance(e, AssertionError) else "",
                 "frames": frames[-4:]}
-    return {"status": "ok", "triples": dump(g)}
+    kind, form = canonical(dump(g))
+    return {"status": "ok", "n": len(form), "canon": kind, "form": form}
 
 
 def term(t):
@@ -157,6 +158,113 @@ def dump(g):
 def canon_of(lang):
     """the canonical set as sorted texts (Language.canon after expand_canon)"""
     return sorted(t.text() for t in lang.canon)
+
+
+
+# --------------------------------------------------------------------------
+# canonical form of a graph up to blank-node renaming (pure Python)
+#
+# colour refinement + individualisation: the result is a triple list in which
+# blank nodes are named by their position in a canonical order, so two graphs are
+# isomorphic iff their canonical forms are EQUAL.  When the search budget is
+# exhausted (many independent symmetric parts) the form is only an isomorphism
+# INVARIANT (kind "invariant"): different invariants still prove non-isomorphism.
+
+import re as _re
+
+_TAU = _re.compile("\u03c4[0-9]+")
+
+
+def mask_literal(o: str) -> str:
+    """rename the running numbers of printed type variables by first occurrence
+    inside the literal (tau7 ** tau7 ** tau9 -> tau#1 ** tau#1 ** tau#2)"""
+    if not o.startswith('"') or "\u03c4" not in o:
+        return o
+    seen = {}
+
+    def ren(m):
+        return seen.setdefault(m.group(0), "\u03c4#%d" % (len(seen) + 1))
+    return _TAU.sub(ren, o)
+
+
+def _refine(nodes, adj, col):
+    """stable colouring; colours are ranks of isomorphism-invariant signatures"""
+    ncls = len(set(col.values()))
+    while True:
+        sig = {}
+        for b in nodes:
+            sig[b] = (col[b], tuple(sorted((d, p, (0, col[o], "") if o in col else (1, 0, o))
+                                           for d, p, o in adj[b])))
+        order = {s: i for i, s in enumerate(sorted(set(sig.values())))}
+        col = {b: order[sig[b]] for b in nodes}
+        n2 = len(order)
+        if n2 == ncls:
+            return col
+        ncls = n2
+
+
+def _labelled(triples, col):
+    def nm(x):
+        return "_:c%d" % col[x] if x in col else x
+    return sorted([nm(s), p, nm(o)] for s, p, o in triples)
+
+
+def canonical(triples, budget=200):
+    """-> (kind, form): kind "exact" | "invariant" """
+    triples = [(s, p, mask_literal(o)) for s, p, o in triples]
+    nodes = sorted({x for s, _, o in triples for x in (s, o) if x.startswith("_:")})
+    if not nodes:
+        return "exact", sorted([s, p, o] for s, p, o in triples)
+    adj = {b: [] for b in nodes}
+    for s, p, o in triples:
+        if s in adj:
+            adj[s].append((0, p, o))
+        if o in adj:
+            adj[o].append((1, p, s))
+    col = _refine(nodes, adj, {b: 0 for b in nodes})
+    left = [budget]
+    best = [None]
+
+    def search(col):
+        classes = {}
+        for b in nodes:
+            classes.setdefault(col[b], []).append(b)
+        multi = sorted(c for c, ms in classes.items() if len(ms) > 1)
+        if not multi:
+            form = _labelled(triples, col)
+            if best[0] is None or form < best[0]:
+                best[0] = form
+            left[0] -= 1
+            return
+        members = classes[multi[0]]
+        # true twins (identical neighbourhoods, not adjacent to each other) are swapped
+        # by an automorphism: one representative per group is enough
+        groups = {}
+        for v in members:
+            key = frozenset(adj[v])
+            groups.setdefault(key, []).append(v)
+        reps = []
+        for key, vs in groups.items():
+            inside = any(o in vs for _, _, o in key)
+            reps += vs if inside else vs[:1]
+        for v in sorted(reps):
+            if left[0] <= 0:
+                return
+            c2 = {b: 2 * c + 1 for b, c in col.items()}
+            c2[v] = 2 * col[v]
+            search(_refine(nodes, adj, c2))
+
+    search(col)
+    if left[0] <= 0:
+        # budget exhausted: the stable colouring is still an invariant
+        return "invariant", _labelled(triples, col)
+    # rename classes 0..n-1 in order (colours of a discrete partition are already ranks)
+    return "exact", best[0]
+
+
+def digest(form) -> str:
+    import hashlib
+    return hashlib.sha1(json.dumps(form, ensure_ascii=False).encode()).hexdigest()
 
 
 # --------------------------------------------------------------------------
